@@ -35,7 +35,7 @@ PROPERTIES = {
         "assumptions": ["R2 sequential semantics"],
     },
     "C04": {
-        "units": ["bar_draw", "c07_position", "multi_state", "pins_bar", "pins_multi"],
+        "units": ["bar_draw", "c07_position", "multi_state", "pins_bar", "pins_multi", "draw_to_term"],
         "level": "proof",
         "explanation": "BarState::finish_using_style verified: status finished, position == length for the finish variants and unchanged for the abandon variants, message set when supplied, and one forced draw whose frame is the rendering of the final state (nothing for the clearing variant) reaches draw_to_term regardless of the limiter (drawable grants every forced request on a visible target without touching the limiter); dropping a finished bar performs no draw; dropping an unfinished one finishes it with on_finish.",
         "level_text": "Deductive proof (Verus) over all bar states, limiter states and finish variants.",
@@ -59,7 +59,7 @@ PROPERTIES = {
         "assumptions": ["R2 sequential"],
     },
     "C05": {
-        "units": ["c05_limiters", "pb_glue", "bar_draw", "pins_bar"],
+        "units": ["c05_limiters", "pb_glue", "bar_draw", "pins_bar", "c07_position"],
         "level": "proof",
         "explanation": "RateLimiter::{new,allow} and AtomicPosition::allow extracted from /repo/src and verified by Verus against the token-bucket step relation; window (20 + R*T + 1) and staleness bounds proved as lemmas by induction over call traces whose step relation is the conjunction of the code contracts.",
         "level_text": "Deductive proof (Verus/Z3), for every limiter state and request time, that RateLimiter::new/allow and AtomicPosition::allow as they stand in /repo/src satisfy the token-bucket step relation taken from the property text; the frame bound 20 + R*T + 1 and the staleness bound are proved once and for all as lemmas by induction over arbitrary call histories whose step relation is exactly those contracts. No bound on history length, times or counters.",
@@ -78,7 +78,7 @@ PROPERTIES = {
         "assumptions": ["R7b write_fmt(format_args!) translation; R12 string-literal match as if-chain; R3 loops"],
     },
     "C09": {
-        "units": ["c09_estimator"],
+        "units": ["c09_estimator", "c07_position"],
         "level": "proof",
         "explanation": "Estimator::{new, record, reset, steps_per_second}, estimator_weight, duration_to_secs and ProgressState::{eta, duration, per_sec} extracted from src/state.rs and verified over the reals (f64 as a real with a finiteness flag that only a division by zero clears): the reported rate is the documented doubly-smoothed, age-weighted, normalised average (rate_at); it is finite at every instant strictly after creation / reset, lies between zero and the largest sample rate recorded since the last reset (invariant inv(M), preserved by every accepted sample), equals r exactly after any number of samples of rate r at any cadence (invariant steady(r)), a reset or a backwards seek leaves exactly the state of a new estimator (prev_steps aside); eta is remaining/rate through the float-to-Duration conversion and zero when finished / length unknown / rate zero; duration is elapsed + eta (saturating); per_sec of a finished bar is position/elapsed. The clause 'the rate never increases while progress stalls' is a separate obligation that FAILS (known finding, witness replayed on the f64 code).",
         "level_text": "Deductive proof (Verus, nonlinear real arithmetic) for every history of samples (inductive invariants inv / steady over record), every gap and every query instant; NOT a proof about IEEE-754: rounding, overflow to infinity and NaN are outside the model.",
@@ -86,7 +86,7 @@ PROPERTIES = {
         "assumptions": ["R6: f64 as mathematical reals (no rounding / overflow / NaN)", "frozen monotone clock within one getter call"],
     },
     "C17": {
-        "units": ["c17_adaptors", "pins_iter"],
+        "units": ["c17_adaptors", "pins_iter", "c07_position"],
         "level": "proof",
         "explanation": "ProgressBarIter's impls of Iterator, DoubleEndedIterator, io::Read (read, read_vectored, read_to_string, read_exact), io::BufRead (fill_buf, consume), io::Seek (seek, stream_position), io::Write (write, write_vectored, flush), tokio AsyncWrite / AsyncRead / AsyncSeek / AsyncBufRead and futures Stream extracted from src/iter.rs and verified against a model source whose every method has arbitrary behaviour and logs its arguments and result: each wrapper method performs exactly that one inner call and returns its result (and leaves the caller's buffer as the inner call left it), the bar advances by exactly the items / bytes the inner call reports (nothing on errors, on Pending, on fill_buf, flush or position queries), a seek moves the bar to the returned offset, exhaustion finishes an unfinished bar exactly once and leaves a finished one alone.",
         "level_text": "Deductive proof (Verus) for every behaviour of the wrapped object (results are unconstrained: short reads and writes, errors, interleaved fill_buf / consume, any seek) and every bar state.",
@@ -110,7 +110,7 @@ PROPERTIES = {
         "assumptions": ["R2: Arc<Mutex<BarState>> as a plain field (sequential)"],
     },
     "C12": {
-        "units": ["c12_padding", "format_state"],
+        "units": ["c12_padding", "format_state", "c10_template"],
         "level": "proof",
         "explanation": "PaddedStringDisplay::fmt extracted from src/style.rs and verified against the padding / truncation functions written from the statement: exact output for content that fits (pad side by alignment), unshortened output when too wide without truncation, and on printable ASCII exactly W characters from the start / middle / end with truncation; both padding loops carry inductive invariants; the byte arithmetic (len - excess) is proved free of underflow.",
         "level_text": "Deductive proof (Verus) for every text, width, alignment and truncate flag of the three clauses above; the 'exactly W columns' clause for arbitrary (non-ASCII) text is a separate obligation that fails on the pinned tree and is listed as a known finding with its witness.",
@@ -126,7 +126,7 @@ PROPERTIES = {
         "assumptions": ["R7 write! translation, R3 chars().enumerate() as an index loop over the materialised characters"],
     },
     "C13": {
-        "units": ["c13_bar", "c13_format_bar", "format_state", "c09_estimator"],
+        "units": ["c13_bar", "c13_format_bar", "format_state", "c09_estimator", "c14_style", "bar_draw"],
         "kani_thorough": [
             {"harness": "c13_format_bar_geometry", "timeout": 2400, "complete": True,
              "obligation": "kani/style::ProgressStyle::format_bar",
@@ -250,7 +250,11 @@ FALLBACK = {
                     ("multi_finish", ["C04", "C02", "C19", "C03"], "finished bars of a MultiProgress (one-row and wrapping) stay, in order, for every finish and drop order of three bars"),
                     ("io_fail_multi", ["C18"], "MultiProgress calls under a failing terminal"),
                     ("io_fail_state", ["C18"], "see bar_draw")],
-    "c07_position": [("bar_hidden", ["C06", "C07"], "getters after operation histories, hidden vs visible")],
+    "c07_position": [("bar_hidden", ["C06", "C07"], "getters after operation histories, hidden vs visible"),
+                     ("pos_arith", ["C07", "C04", "C05"], "inc / dec wrap, inc_length / dec_length saturate, finish variants vs position: 5 x 5 boundary values"),
+                     ("bar_reuse", ["C04", "C17"], "finish behaviour at the second completion of a reused bar"),
+                     ("est_laws", ["C09"], "see c09_estimator")],
+    "pb_glue": [("pos_arith", ["C07", "C05"], "see c07_position"), ("bar_frames", ["C05"], "see bar_draw")],
     "c17_adaptors": [("iter_adaptors", ["C17"], "external / reverse / internal iteration (8 modes x 3 lengths, second handle on the bar), Read with 5 chunk scripts x 3 buffer sizes incl. errors, read_exact, read_to_string, interleaved fill_buf / consume, 9 seeks x 2 bar offsets, Write / write_vectored with 4 chunk scripts")],
     "c13_format_bar": [("bar_cells", ["C13"], "{bar:N} geometry for 6 widths x 9 lengths (up to 2^24) x 8 positions on the real f32 code")],
     "c16_tabs": [("tabs_everywhere", ["C16", "C06"], "message / prefix / literal tabs after every sequence of 3 operations out of 7 (set_message, set_prefix, set_tab_width x2, set_style x2, finish_with_message) x 2 initial widths; custom keys writing a tab as str, char and format argument")],
@@ -261,7 +265,8 @@ FALLBACK = {
     "pins_iter": [("iter_adaptors", ["C17"], "see c17_adaptors")],
     "c09_estimator": [("est_laws", ["C09"], "finite / non-negative / bounded / steady-exact / reset-forgets on the real f64 estimator: 5 rates x 6 gap patterns x 40 samples")],
     "c14_style": [("style_build", ["C14"], "builders reject or produce a renderable style (family of tick/progress strings)")],
-    "c10_template": [("template_total", ["C10"], "parser totality on generated strings up to length 6 over the grammar alphabet"),
+    "c10_template": [("template_fields", ["C10", "C12"], "width / alignment / truncation options of a placeholder reach the renderer as written: 14 templates"),
+                     ("template_total", ["C10"], "parser totality on generated strings up to length 6 over the grammar alphabet"),
                      ("template_order", ["C10"], "literal order / one line per template line on generated templates")],
     "format_state": [("render_keys", ["C11"], "every documented key against the getters through the public formatters, 9 position/length pairs x 3 statuses x 4 tick counts; custom key shadowing"),
                      ("render_wide", ["C12", "C13", "C11"], "lines with wide_bar / wide_msg fill exactly the terminal width (4 widths x 7 templates)"),
